@@ -121,6 +121,15 @@ Result(f, as) ==
 \* any order of independent attributes on the same item
 Permuted(as, bs) == Len(as) = Len(bs) /\ \E p \in [1..Len(as) -> 1..Len(as)] :
                         (\A i, j \in 1..Len(as) : i # j => p[i] # p[j]) /\ bs = [i \in 1..Len(as) |-> as[p[i]]]
+\* Attributes of other tools (doc comments, #[allow(..)], #[cfg_attr(..)], another derive's helper attribute) that stand
+\* before, between or after a derive's own attributes are not its business: a list reads the same with or without them -
+\* in particular two attributes that may not both be given are still two attributes when something stands between them.
+Foreign == "foreign"
+Strip(as) == SelectSeq(as, LAMBDA a : a # Foreign)
+RECURSIVE Interleave(_)
+Interleave(as) == IF as = <<>> THEN <<Foreign>> ELSE <<Foreign, Head(as)>> \o Interleave(Tail(as))
+ResultF(f, as) == Result(f, Strip(as))
+ForeignFree(f, as) == ResultF(f, Interleave(as)) = Result(f, as)
 OrderFree(f, as, bs) == Permuted(as, bs) => Result(f, as) = Result(f, bs)
 \* a corruption is never silently ignored: the result is REJECT, never that of the uncorrupted or empty list
 RejectLaw(f, as) == (\E i \in 1..Len(as) : Corrupt(f, as[i])) => Result(f, as) = REJECT
